@@ -18,7 +18,9 @@ def probes(shape, halo):
 
 def events_for(darsia, rng, shape, table, h, omode, kind, halo, tid, sample_single, cap):
     n = len(shape)
-    img, o, _ = build_image(darsia, rng, shape, h, omode, kind, table)
+    # the image classes share one geometry: plain Image, or the scalar / optical subclass fitting the payload (2-D optical only)
+    cls = rng.choice([None, darsia.ScalarImage]) if kind in ("scalar", "series") else (rng.choice([None, darsia.OpticalImage]) if n == 2 else None)
+    img, o, _ = build_image(darsia, rng, shape, h, omode, kind, table, cls=cls)
     cs = img.coordinatesystem
     ev = []
     base = {"n": n, "shape": list(shape)}
@@ -79,6 +81,45 @@ def events_for(darsia, rng, shape, table, h, omode, kind, halo, tid, sample_sing
     ev.append(dict(base, tid=tid, op="conv", **{"from": "X", "to": "C"}, form="batch", pts=Kl,
                    res=np.round(4 * np.asarray(xa.to_voxel_center(cs), dtype=float)).astype(int).tolist()))
     ev.append(dict(base, tid=tid, op="conv", **{"from": "X", "to": "X"}, form="batch", pts=Kl, res=lat(xa.to_coordinate(cs))))
+    # the generic dispatcher p.to(cls, cs) for all nine (from, to) pairs, single and array target classes alike, and the
+    # class of what comes back (a conversion of a batch returns the array class of the target kind)
+    CLS = {"V": (darsia.Voxel, darsia.VoxelArray), "C": (darsia.VoxelCenter, darsia.VoxelCenterArray), "X": (darsia.Coordinate, darsia.CoordinateArray)}
+
+    def to4(kind, r):
+        r = np.atleast_2d(np.asarray(r, dtype=float))
+        return lat(r) if kind == "X" else np.round(4 * r).astype(int).tolist()
+
+    srcs = {"V": (va, P4), "C": (ca, C4), "X": (xa, Kl)}
+    for fk, (obj, pts4) in srcs.items():
+        for tk in ("V", "C", "X"):
+            target = CLS[tk][rng.randrange(2)]
+            r = obj.to(target, cs)
+            res = to4(tk, r)
+            if type(r) is not CLS[tk][1]:
+                res = [[99999999] * n for _ in res]         # wrong container class
+            ev.append(dict(base, tid=tid, op="conv", **{"from": fk, "to": tk}, form="batch-dispatch", pts=pts4, res=res))
+    # Cartesian-ordered voxel input (matrix_indexing=False: columns reversed) denotes the same voxels
+    if n >= 2:
+        vf = darsia.make_voxel(V[:, ::-1], matrix_indexing=False)
+        ev.append(dict(base, tid=tid, op="conv", **{"from": "V", "to": "V"}, form="batch-reversed-columns", pts=P4,
+                       res=(4 * np.asarray(vf)).astype(int).tolist() if type(vf) is darsia.VoxelArray else [[99999999] * n] * len(P4)))
+    # the coordinate system's own enumeration of its voxels and their coordinates
+    allv = np.asarray(cs.voxels)
+    allx = np.asarray(cs.coordinates)
+    want = set(itertools.product(*[range(k) for k in shape]))
+    got = [tuple(int(t) for t in v) for v in allv]
+    ev.append(dict(base, tid=tid, op="enum", count=len(got), distinct=len(set(got)), inside=int(set(got) == want),
+                   coords_match=int(len(allx) == len(allv) and lat(allx) == lat(cs.coordinate(allv)) and 99999999 not in np.asarray(lat(allx)).ravel().tolist())))
+    # bounding box and voxel sizes by Cartesian name
+    vsn = cs.voxel_size
+    ev.append(dict(base, tid=tid, op="byname", vsize=[int(round(1e6 * vsn["xyz"[c]] / h[[m for m in range(n) if table[m][0] == c + 1][0]])) for c in range(n)],
+                   lengths=[int(round(1e6 * cs.length(3, "xyz"[c]) / (3 * h[[m for m in range(n) if table[m][0] == c + 1][0]]))) for c in range(n)],
+                   counts=[int(cs.num_voxels(5 * h[[m for m in range(n) if table[m][0] == c + 1][0]], "xyz"[c])) for c in range(n)]))
+    if n <= 2:
+        dom = [float(t) for t in img.domain]
+        lo = lat([dom[2 * c] for c in range(n)])[0]
+        hi = lat([dom[2 * c + 1] for c in range(n)])[0]
+        ev.append(dict(base, tid=tid, op="domain", lo=lo, hi=hi))
     # single-point call forms on a sample
     for i in rng.sample(range(len(V)), min(sample_single, len(V))):
         v = V[i]
